@@ -211,3 +211,163 @@ package server
 //@ ensures[C07,C08] forwards_only_when_released: emitted(LBServe(_, _, _)) ==> emitted(Gate(_, _, PauseWaitActionProceed, _)) && none(ErrResp) && none(Redirect)
 //@ ensures[C10,C02] serves_picked_balancer: count(LBServe(_, _, _)) <= 1 && count(PickLB(_, _)) <= 1
 //@ ensures[C02] no_404_502: none(ErrResp(_, 404, _)) && none(ErrResp(_, 502, _))
+
+//@ func iface server.HealthCheckConsumer.HealthCheckCompleted
+//@ params recv, success
+//@ assigns *
+//@ emits HealthResult(recv, success)
+
+//@ func (*server.HealthCheck).check
+//@ requires hc.endpoint != nil && !isnil(hc.consumer) && !isnil(hc.ctx)
+//@ attr blocks
+//@ assigns *
+//@ emits Check(hc)
+//@ ensures[C01,C09] success_needs_2xx: emitted(HealthResult(_, true)) ==> emitted(Probe(_, _, true))
+//@ ensures[C01,C09] non_2xx_never_succeeds: emitted(Probe(_, _, false)) ==> none(HealthResult(_, true))
+//@ ensures[C01,C09] one_probe_one_report: count(Probe(_, _, _)) <= 1 && count(HealthResult(_, _)) <= 1 && all(HealthResult, $0 == payload(old(hc.consumer)))
+//@ ensures[C01,C17] probe_bounded_by_probe_timeout: all(Probe, ctxDeadline($1) == old(now) + max(old(hc.timeout), 0) && ctxParent($1) == payload(old(hc.ctx)))
+//@ ensures[C09] reports_every_completed_probe: emitted(Probe(_, _, true)) ==> emitted(HealthResult(_, true))
+
+//@ func iface server.TargetStateConsumer.TargetStateChanged
+//@ params recv, target
+//@ assigns LoadBalancer.healthy
+//@ emits StateChanged(recv, target)
+
+//@ func (*server.LoadBalancer).TargetStateChanged
+//@ assigns lb.healthy
+//@ emits StateChanged(lb, target)
+
+//@ func (*server.Target).HealthCheckCompleted
+//@ requires t.targetURL != nil && t.healthcheck != nil && t.becameHealthy != nil
+//@ assigns t.state, closed(t.becameHealthy), everHealthy(t), LoadBalancer.healthy
+//@ ensures[C01] first_success_promotes: old(t.state) == TargetStateAdding && success ==> t.state == TargetStateHealthy && closed(t.becameHealthy)
+//@ ensures[C01] failure_never_promotes: !success ==> t.state != TargetStateHealthy && closed(t.becameHealthy) == old(closed(t.becameHealthy)) && everHealthy(t) == old(everHealthy(t))
+//@ ensures[C01] adding_stays_adding_on_failure: old(t.state) == TargetStateAdding && !success ==> t.state == TargetStateAdding
+//@ ensures[C09] failure_demotes: old(t.state) == TargetStateHealthy && !success ==> t.state == TargetStateUnhealthy
+//@ ensures[C09] success_recovers: old(t.state) == TargetStateUnhealthy && success ==> t.state == TargetStateHealthy
+//@ ensures[C09] notifies_on_change: t.state != old(t.state) && !isnil(t.stateConsumer) ==> emitted(StateChanged(t.stateConsumer, t))
+//@ ensures[C01,C09] closes_once: count(Close(_)) <= 1 && (emitted(Close(_)) ==> old(t.state) == TargetStateAdding && success)
+//@ ensures[C02] rotation_ready_before_signal: !isnil(old(t.stateConsumer)) ==> first(StateChanged(_, _), Close(_))
+//@ ensures[C03,C09] probe_does_not_end_drain: old(t.state) == TargetStateDraining ==> t.state == TargetStateDraining
+//@ ensures[C18] lock_free: !held(t.inflightLock)
+
+//@ func (server.TargetState).String
+//@ assigns nothing
+
+//@ func (server.PauseState).String
+//@ assigns nothing
+
+//@ func (*server.Target).State
+//@ assigns nothing
+//@ ensures[C09] reads_state: result == t.state
+//@ ensures[C01] healthy_means_probed: result == TargetStateHealthy ==> everHealthy(t)
+
+//@ func (*server.Target).updateState
+//@ requires state == TargetStateAdding ==> !everHealthy(t)
+//@ assigns t.state, everHealthy(t)
+//@ ensures[C03,C09] sets: t.state == state && result == old(t.state)
+//@ ensures[C01] ever_healthy: everHealthy(t) == (old(everHealthy(t)) || state == TargetStateHealthy)
+//@ ensures[C01] adding_was_never_healthy: result == TargetStateAdding ==> !old(everHealthy(t))
+
+//@ func (*server.LoadBalancer).updateHealthyTargets
+//@ assigns lb.healthy
+//@ ensures[C09] only_healthy_targets: forall j int :: 0 <= j && j < len(lb.healthy) ==> lb.healthy[j].state == TargetStateHealthy && (exists i int :: 0 <= i && i < len(lb.all) && lb.healthy[j] == lb.all[i])
+//@ ensures[C09] every_healthy_target: forall i int :: 0 <= i && i < len(lb.all) && lb.all[i].state == TargetStateHealthy ==> (exists j int :: 0 <= j && j < len(lb.healthy) && lb.healthy[j] == lb.all[i])
+//@ ensures[C09] no_more_than_all: len(lb.healthy) <= len(lb.all)
+//@ ensures[C18] lock_free: !held(lb.lock)
+//@ loop 1 invariant[C09] healthy_only: forall j int :: 0 <= j && j < len(lb.healthy) ==> lb.healthy[j].state == TargetStateHealthy
+//@ loop 1 invariant rotation_wf: forall j int :: 0 <= j && j < len(lb.healthy) ==> targetWF(lb.healthy[j])
+//@ loop 1 invariant[C01] rotation_ever_healthy: forall j int :: 0 <= j && j < len(lb.healthy) ==> everHealthy(lb.healthy[j])
+//@ loop 1 invariant[C09] subset: forall j int :: 0 <= j && j < len(lb.healthy) ==> (exists i int :: 0 <= i && i < idx && lb.healthy[j] == coll[i])
+//@ loop 1 invariant[C09] complete: forall i int :: 0 <= i && i < idx && coll[i].state == TargetStateHealthy ==> (exists j int :: 0 <= j && j < len(lb.healthy) && lb.healthy[j] == coll[i])
+//@ loop 1 invariant[C09] bounded: len(lb.healthy) <= idx && idx <= len(coll) && coll == lb.all
+//@ loop 1 invariant all_wf: forall i int :: 0 <= i && i < len(coll) ==> targetWF(coll[i])
+
+//@ func (*server.HealthCheck).Close
+//@ requires hcWF(hc)
+//@ assigns cancelled(hc.cancel), closed(ctxDone(payload(hc.ctx)))
+//@ ensures[C17,C06] probe_loop_cancelled: closed(ctxDone(payload(hc.ctx))) && cancelled(hc.cancel)
+//@ emits StopProbes(hc)
+
+//@ func (*server.HealthCheck).run
+//@ requires hcWF(hc)
+//@ attr blocks
+//@ assigns *
+//@ ensures[C17,C06] returns_only_when_cancelled: closed(ctxDone(payload(old(hc.ctx))))
+//@ ensures[C09] probes_immediately: first(Check(hc), Select(_))
+//@ ensures[C09,C17] ticker_uses_interval: all(NewTicker, $1 == old(hc.interval)) && count(NewTicker(_, _)) == 1
+
+//@ func server.NewHealthCheck
+//@ requires endpoint != nil && !isnil(consumer)
+//@ assigns nothing
+//@ ensures[C09,C17] built: fresh(result) && hcWF(result) && result.consumer == consumer && result.endpoint == endpoint && result.interval == interval && result.timeout == timeout && !closed(ctxDone(payload(result.ctx)))
+//@ emits NewHealthCheck(result, consumer)
+
+//@ func (*server.Target).stopHealthChecks
+//@ requires t.healthcheck != nil ==> hcWF(t.healthcheck)
+//@ assigns t.healthcheck, cancelled(t.healthcheck.cancel), closed(ctxDone(payload(t.healthcheck.ctx)))
+//@ ensures[C17,C06] stopped: probesStopped(t) && (old(t.healthcheck) != nil ==> closed(ctxDone(payload(old(t.healthcheck.ctx)))))
+
+//@ func (*server.Target).Dispose
+//@ requires t.healthcheck != nil ==> hcWF(t.healthcheck)
+//@ assigns t.healthcheck, cancelled(t.healthcheck.cancel), closed(ctxDone(payload(t.healthcheck.ctx)))
+//@ ensures[C17,C06] stopped: probesStopped(t) && (old(t.healthcheck) != nil ==> closed(ctxDone(payload(old(t.healthcheck.ctx)))))
+
+//@ func (*server.Target).WaitUntilHealthy
+//@ requires t.healthcheck != nil ==> hcWF(t.healthcheck)
+//@ attr blocks
+//@ assigns t.healthcheck, cancelled(t.healthcheck.cancel), closed(ctxDone(payload(t.healthcheck.ctx)))
+//@ ensures[C01] healthy_means_signalled: result ==> closed(old(t.becameHealthy))
+//@ ensures[C01,C17] timeout_stops_probes: !result ==> probesStopped(t) && now >= old(now) + max(timeout, 0)
+//@ ensures[C17] bounded_by_timeout: now <= old(now) + max(timeout, 0)
+//@ ensures[C17] prompt: result ==> now <= max(old(now), closedAt(old(t.becameHealthy)))
+//@ ensures[C17] timeout_exact: !result ==> now == old(now) + max(timeout, 0)
+
+//@ func (*server.LoadBalancer).WaitUntilHealthy$1
+//@ attr forkjoin = target
+//@ attr blocks
+//@ requires target != nil && target.targetURL != nil && (target.healthcheck != nil ==> hcWF(target.healthcheck))
+//@ assigns Target.healthcheck, cancelled, closed, atomicbool(failed$ptr)
+//@ ensures[C01] healthy_or_flagged: closed(target.becameHealthy) || atomicbool(failed$ptr)
+//@ ensures[C17] bounded_by_timeout: now <= spawntime + max(timeout, 0)
+
+//@ func (*server.LoadBalancer).WaitUntilHealthy
+//@ attr blocks
+//@ assigns Target.healthcheck, cancelled, closed
+//@ ensures[C01] all_signalled: err == nil ==> forall i int :: 0 <= i && i < len(lb.all) ==> closed(lb.all[i].becameHealthy) && everHealthy(lb.all[i])
+//@ ensures[C17] bounded_by_timeout: now <= old(now) + max(timeout, 0)
+//@ ensures[C18] lock_free: !held(lb.lock)
+//@ emits WaitHealthy(lb, timeout)
+//@ loop 1 invariant[C01] every_target_awaited: forall i int :: 0 <= i && i < idx ==> spawned("(*server.LoadBalancer).WaitUntilHealthy$1", coll[i])
+//@ loop 1 invariant same_list: coll == lb.all && idx <= len(coll) && now == old(now)
+
+//@ func (*server.Target).pendingRequestsToCancel
+//@ assigns nothing
+//@ ensures[C03] snapshot_of_inflight: result != nil && fresh(result) && forall k `*net/http.Request` :: haskey(result, k) == haskey(t.inflight, k) && (haskey(result, k) ==> result[k] == t.inflight[k] && result[k] != nil && result[k].cancel != nil)
+//@ ensures[C18] lock_free: !held(t.inflightLock)
+//@ loop 1 invariant copied_so_far: forall i int :: 0 <= i && i < idx ==> haskey(result, keys[i]) && result[keys[i]] == coll[keys[i]]
+//@ loop 1 invariant nothing_else: forall k `*net/http.Request` :: haskey(result, k) ==> haskey(coll, k) && result[k] == coll[k]
+//@ loop 1 invariant same_map: coll == t.inflight
+//@ loop 1 invariant result_live: result != nil
+//@ loop 1 invariant result_fresh: fresh(result)
+
+//@ func (*server.Target).Drain
+//@ requires everHealthy(t)
+//@ attr blocks
+//@ assigns t.state, everHealthy(t), cancelled, closed
+//@ ensures[C03,C17] bounded_by_drain_timeout: now <= old(now) + max(timeout, 0)
+//@ ensures[C03] every_request_of_the_snapshot_cancelled: old(t.state) != TargetStateDraining ==> forall k `*net/http.Request` :: old(haskey(t.inflight, k)) ==> cancelled(old(t.inflight[k]).cancel)
+//@ ensures[C03] cut_off_only_at_deadline: old(t.state) != TargetStateDraining ==> (forall k `*net/http.Request` :: old(haskey(t.inflight, k)) ==> reqDone(k)) || now >= old(now) + max(timeout, 0)
+//@ ensures[C03] overlapping_drain_returns_at_once: old(t.state) == TargetStateDraining ==> now == old(now)
+//@ ensures[C18] lock_free: !held(t.inflightLock)
+//@ emits DrainTarget(t, timeout)
+//@ loop 1 invariant[C03] upgraded_connections_first: forall k `*net/http.Request` :: haskey(toCancel, k) && !toCancel[k].hijacked ==> sameCancelled(toCancel[k].cancel)
+//@ loop 1 invariant no_waiting_yet: now == old(now) && fireAt(deadline) == old(now) + max(timeout, 0) && toCancel != nil
+//@ loop 1 invariant snapshot: forall k `*net/http.Request` :: haskey(toCancel, k) == old(haskey(t.inflight, k)) && (haskey(toCancel, k) ==> toCancel[k] == old(t.inflight[k]) && toCancel[k] != nil && toCancel[k].cancel != nil)
+//@ loop 2 invariant[C03,C17] one_shared_deadline: now <= max(old(now), fireAt(deadline)) && fireAt(deadline) == old(now) + max(timeout, 0) && toCancel != nil
+//@ loop 2 invariant[C03] waited_for: forall i int :: 0 <= i && i < idx ==> reqDone(keys[i])
+//@ loop 2 invariant snapshot: forall k `*net/http.Request` :: haskey(toCancel, k) == old(haskey(t.inflight, k)) && (haskey(toCancel, k) ==> toCancel[k] == old(t.inflight[k]) && toCancel[k] != nil && toCancel[k].cancel != nil)
+//@ loop 3 invariant[C03] cancelled_so_far: forall i int :: 0 <= i && i < idx ==> cancelled(toCancel[keys[i]].cancel)
+//@ loop 3 invariant[C03,C17] no_more_waiting: now <= old(now) + max(timeout, 0) && toCancel != nil
+//@ loop 3 invariant[C03] wait_outcome: (forall k `*net/http.Request` :: haskey(toCancel, k) ==> reqDone(k)) || now >= old(now) + max(timeout, 0)
+//@ loop 3 invariant snapshot: forall k `*net/http.Request` :: haskey(toCancel, k) == old(haskey(t.inflight, k)) && (haskey(toCancel, k) ==> toCancel[k] == old(t.inflight[k]) && toCancel[k] != nil && toCancel[k].cancel != nil)
